@@ -548,3 +548,6 @@ REPLAY["C16"] = replay_C16
 from props_c17 import check_C17, replay_C17  # noqa: E402
 REGISTRY["C17"] = check_C17
 REPLAY["C17"] = replay_C17
+from props_c14 import check_C14, replay_C14  # noqa: E402
+REGISTRY["C14"] = check_C14
+REPLAY["C14"] = replay_C14
